@@ -29,6 +29,7 @@ from pycel.excelutil import (
     EMPTY,
     ERROR_CODES,
     in_array_formula_context,
+    is_address,
     NAME_ERROR,
     PyCelException,
     REFERENCE_OPERATORS,
@@ -49,6 +50,12 @@ def python_str(address):
     """An address as a python string, a sheet name may hold a double quote"""
     address = str(address).replace('\\', r'\\').replace('"', r'\"')
     return f'"{address}"'
+
+
+def emit_address(address, reference=False):
+    """Emit the code which reads the cells at, or makes a reference of, an address"""
+    func = '_REF_' if reference else '_R_' if address.is_range else '_C_'
+    return f'{func}({python_str(address)})'
 
 
 class FormulaParserError(PyCelException):
@@ -291,6 +298,11 @@ class ASTNode:
         """Emit code for the reference the node stands for, not for its value"""
         return self.emit
 
+    @property
+    def written_reference(self):
+        """The address of a reference which is written out in the formula"""
+        return None
+
 
 class OperatorNode(ASTNode):
     op_map = {
@@ -311,6 +323,18 @@ class OperatorNode(ASTNode):
         else:
             # the operands of any other operator are values
             return self.emit
+
+    @property
+    def written_reference(self):
+        """The rectangle two written references span: A1:(B2), (A1:A2):B2"""
+        if self.value == ':':
+            left, right = (arg.written_reference for arg in self.children)
+            if left and right and not (
+                    left.is_unbounded_range or right.is_unbounded_range):
+                union = left ** right
+                if is_address(union):
+                    return union
+        return None
 
     def _emit(self, range_func):
         xop = self.value
@@ -336,6 +360,9 @@ class OperatorNode(ASTNode):
             # range intersection
             ss = (f'{range_func}(str('
                   f'{args[0].emit_reference} & {args[1].emit_reference}))')
+        elif op == ':' and self.written_reference:
+            # a range known now: all of its cells are precedents of the formula
+            ss = emit_address(self.written_reference, range_func == '_REF_')
         elif op == ':':
             # range union
             ss = (f'{range_func}(str('
@@ -391,7 +418,23 @@ class RangeNode(OperandNode):
     def emit_reference(self):
         return self._emit(reference=True)
 
+    @property
+    def written_reference(self):
+        address = self._address()
+        return address if is_address(address) else None
+
     def _emit(self, value=None, reference=False):
+        address = self._address(value)
+        if address is None:
+            return f'"{NAME_ERROR}"'
+
+        elif isinstance(address, AddressMultiAreaRange):
+            return ', '.join(self._emit(value=str(addr), reference=reference)
+                             for addr in address)
+        else:
+            return emit_address(address, reference)
+
+    def _address(self, value=None):
         # resolve the range into cells
         sheet = self.cell and self.cell.sheet or ''
         value = value is not None and value or self.value
@@ -413,18 +456,13 @@ class RangeNode(OperandNode):
 
             if not table_name:
                 logging.getLogger('pycel').warning(f'Table Name not found: {addr_str}')
-                return f'"{NAME_ERROR}"'
+                return None
 
             addr_str = f'{table_name}{addr_str}'
             address = AddressRange.create(
                 addr_str, sheet=self.cell.address.sheet, cell=self.cell)
 
-        if isinstance(address, AddressMultiAreaRange):
-            return ', '.join(self._emit(value=str(addr), reference=reference)
-                             for addr in address)
-        else:
-            func = '_REF_' if reference else '_R_' if address.is_range else '_C_'
-            return f'{func}({python_str(address)})'
+        return address
 
 
 class FunctionNode(ASTNode):
@@ -476,6 +514,13 @@ class FunctionNode(ASTNode):
             return ", ".join(self.emit_arg(n) for n in to_emit)
         else:
             return ", ".join(fmt_str.format(self.emit_arg(n)) for n in to_emit)
+
+    @property
+    def written_reference(self):
+        # parentheses after a range operator come as a function without a name
+        if self.value == '(' and len(self.children) == 1:
+            return self.children[0].written_reference
+        return None
 
     @property
     def emit_reference(self):
